@@ -32,6 +32,18 @@ Streams (model = lean/JediModel/Model/Call.lean through Drivers/C11.lean)
                static/classmethod, nested) through get_names / get_context / infer / goto / help /
                get_signatures / complete; oracle = inspect.getdoc + inspect.signature of the
                executed object (props/c11_doc.py, fresh-interpreter workers)
+  oracle:history  edit-and-ask-again sessions (gen_history): 2-4 successive contents of ONE path whose called
+               definition changes (parameter list, kind of callable of the same call text) while the call
+               keeps its text (layouts: same position / moved / edited arguments / no path / another path),
+               a new Script(code, path=...) per step right after the other; every answer is judged on its own
+               by the per-request oracle (exec + inspect.signature + re-parse + sentinel calls + bracket);
+               a failure the same request shows without history goes to the ordinary streams, one that only
+               the history produces is reported with the shortest failing sub-history
+  sigcache     real helpers.cache_signatures behind real cache.signature_time_cache, called as
+               Script.get_signatures calls it, over such histories with a controlled clock (pauses around
+               the validity), one-line calls and cursors below the bracket line; inference stubbed by a
+               counter: answer / stored? / matched text of the key / size of the dictionary vs
+               `SigCache.request` (Model/SigCache.lean) folded over the same requests
   oracle:*     the property itself on the real code: exec the definition, inspect.signature,
                re-parse of to_string(), real calls with a sentinel argument, inspect.getdoc;
                oracle:kwforward = exactly the calls that bind against the reported signature of a
@@ -46,7 +58,7 @@ import json
 import common
 from common import short
 
-MODELS = ['Call', 'DocLit']
+MODELS = ['Call', 'DocLit', 'SigCache']
 MANIFEST = dict(
     text='Theorems over the model of _ActualTreeParamName.get_kind, _SignatureMixin.to_string, '
          'TreeSignature.get_param_names (process_params without forwarding and with **kwargs forwarded one level, '
@@ -65,10 +77,18 @@ MANIFEST = dict(
          'remaining cells (bare-name prefix, after *e), docstring assembly; which string token is a docstring: '
          'for every legal prefix x quote style x ANY body `_clean_docstring_literal` decides like Python (no b, no f '
          'in the prefix) and never looks at the body (docstring_literal_decision / _body_irrelevant, slice length '
-         'and letters read from safe_literal_eval by the translator). Tie: translator constants + '
+         'and letters read from safe_literal_eval by the translator). HISTORIES: model of the time cache in front of '
+         'the callee inference (helpers.cache_signatures key + cache.signature_time_cache + clear_time_caches in '
+         'Script.__init__, Model/SigCache.lean; kind of the second key component, statement shapes and validity read '
+         'from the source): for ALL sequences of requests of any Scripts / paths / contents / clock values every '
+         'answer is the callee inferred from the asking Script\'s own source (sig_history_every_answer_fresh, because '
+         'the key holds a match object), unkeyed requests are never cached under any key configuration '
+         '(sig_unkeyed_request_fresh), exact two-step characterisation of a text key (sig_text_key_second_answer) with '
+         'kernel-checked stale-answer witness (sig_text_key_stale_witness). Tie: translator constants + '
          'correspondence on real parso trees and real jedi objects; direct oracle executes the definition, '
          'uses inspect.signature, re-parses to_string(), performs real calls with sentinel arguments, '
-         'inspect.getdoc.',
+         'inspect.getdoc; stream oracle:history does so for every answer of edit-and-ask-again sessions on one path, '
+         'stream sigcache compares the cache model with the real functions under a controlled clock.',
     note='Modelled not verified: parso (the node list handed to _iter_arguments is checked per case), '
          'inference of the callee (which definition a call resolves to; for forwarding: which calls '
          '_iter_nodes_for_param finds and what they resolve to - checked per case by stream forward), process_params '
@@ -1110,6 +1130,91 @@ def stream_history(ctx, objs):
                          'the executed last source. ./check C11 --replay <this file>')
 
 
+class _FakeClock:
+    """stands in for the module `time` inside jedi.cache: the history decides what time it is"""
+    def __init__(self):
+        self.ms = 1000000
+
+    def time(self):
+        return self.ms / 1000.0
+
+
+# pauses between two requests, milliseconds (exact binary fractions of a second: `expiry > time.time()`
+# is then the same comparison in floats and in the model's integers); validity is 3000
+HIST_PAUSES = [0, 0, 125, 1500, 2875, 3000, 3125, 8000]
+
+
+def stream_sigcache(ctx, reqs, metas):
+    """the real helpers.cache_signatures behind the real cache.signature_time_cache (called the way
+    Script.get_signatures calls it: real parso bracket leaf, real context, real code_lines) over
+    histories on one path with a clock the history controls; the callee inference is replaced by a
+    counter (which Script computed the value).  vs `SigCache.call` folded over the same requests:
+    answer, whether an entry was stored, the matched text of its key, size of the dictionary."""
+    import os
+    import shutil
+    import jedi
+    from jedi import cache as jcache
+    from jedi.api import helpers
+    rng = ctx.subrng('sigcache')
+    n = ctx.size(60, 800)
+    dct = jcache._time_caches.get('call_signatures_validity')
+    if dct is None:
+        ctx.tie_broken('correspondence:sigcache', "jedi.cache._time_caches has no 'call_signatures_validity'")
+        return
+    clock = _FakeClock()
+    current = [0]
+    saved = (jcache.time, helpers.infer)
+    jcache.time = clock
+    helpers.infer = lambda *a, **k: current[0]
+    d = _hist_dir()
+    try:
+        for hno in range(n):
+            h = gen_history(rng)
+            dct.clear()
+            if rng.random() < 0.3:       # ask twice without an edit in between
+                k = rng.randrange(len(h['steps']))
+                h['steps'].insert(k, h['steps'][k])
+            variant = rng.choice(['one-line', 'one-line', 'cursor-below', 'cursor-below-paren'])
+            req_list, real_list = [], []
+            for j, c in enumerate(h['steps']):
+                src, line, col = c['src'], c['line'], c['col']
+                if variant != 'one-line':
+                    head = src[:src.rindex('\n') + 1] + c['callee'] + '('
+                    tail = '\n    ' + ('(1' if variant == 'cursor-below-paren' else 'xv')
+                    src, line, col = head + tail, line + 1, len(tail) - 1
+                path = os.path.join(d, 'h%d' % hno, c['file']) if c['file'] is not None else None
+                clock.ms += rng.choice(HIST_PAUSES)
+                current[0] = j
+                script = jedi.Script(src, path=path)
+                cd = helpers.get_signature_details(script._module_node, (line, col))
+                if cd is None:
+                    ctx.count('unmodelled', None, nontrivial=False, bucket='sigcache: no call details')
+                    continue
+                context = script._get_module_context().create_context(cd.bracket_leaf)
+                try:
+                    ans = helpers.cache_signatures(script._inference_state, context, cd.bracket_leaf,
+                                                   script._code_lines, (line, col))
+                except IndexError:
+                    ans = None
+                # the value `j` exists only if THIS call ran the (stubbed) inference and stored it
+                mine = [k for k, e in dct.items() if e[1] == j]
+                text = None
+                if mine:
+                    m = mine[0][1]
+                    text = m if isinstance(m, str) else m.group(0)
+                real_list.append({'answer': ans, 'stored': bool(mine), 'text': text, 'size': len(dct)})
+                req_list.append({'path': path, 'lines': list(script._code_lines), 'bracket': list(cd.bracket_leaf.start_pos),
+                                 'cursor': [line, col], 'scriptAt': clock.ms, 'now': clock.ms, 'fresh': j})
+            reqs.append({'op': 'sigcache', 'reqs': req_list})
+            metas.append(('sigcache', {'layout': h['layout'], 'variant': variant,
+                                       'requests': [{k: r[k] for k in ('path', 'lines', 'bracket', 'cursor', 'scriptAt', 'now')}
+                                                    for r in req_list]}, real_list))
+    finally:
+        jcache.time, helpers.infer = saved
+        dct.clear()
+        shutil.rmtree(d, ignore_errors=True)
+
+
 # ------------------------------------------------------------------ stream: kinds (invalid lists)
 
 def stream_kinds(ctx, reqs, metas):
@@ -1783,6 +1888,7 @@ def run(ctx):
     for c in cases:
         run_oracle(ctx, c, objs)
     stream_history(ctx, objs)
+    stream_sigcache(ctx, reqs, metas)
     stream_probes(ctx)
     stream_star_args_probe(ctx)
     stream_forward(ctx, reqs, metas)
@@ -1803,6 +1909,20 @@ def run(ctx):
                 if real['params'] != ans['params'] or real['to_string'] != ans['to_string']:
                     ctx.tie_broken('correspondence:kinds', short({'case': meta, 'impl': [real['params'], real['to_string']],
                                                                   'model': ans}, 1500))
+            elif stream == 'sigcache':
+                for k, (r, m) in enumerate(zip(extra, ans)):
+                    stale = r['answer'] != k
+                    ctx.count('sigcache', json.dumps([meta['requests'][:k + 1]], sort_keys=True), nontrivial=k > 0,
+                              bucket='%s/%s/%s/%s' % (meta['layout'], meta['variant'],
+                                                      'stored' if r['stored'] else 'not-stored',
+                                                      'earlier-value' if stale else 'own-value'),
+                              sample={'requests': meta['requests'][:k + 1], 'impl': r})
+                    mm = {'answer': m['answer'], 'stored': m['stored'],
+                          'text': m['text'] if m['stored'] else None, 'size': m['size']}
+                    if r != mm:
+                        ctx.tie_broken('correspondence:sigcache',
+                                       short({'requests': meta['requests'][:k + 1], 'impl': r, 'model': mm}, 1500))
+                        break
             elif stream == 'pybind':
                 ctx.count('pybind', json.dumps(meta, sort_keys=True), nontrivial=True,
                           bucket='%s/%s' % (meta['cur'][0], 'none' if extra is None else 'bound'),
@@ -1880,6 +2000,10 @@ def run(ctx):
         '(streams oracle:doc, oracle:doclit); parso: get_doc_node hands the string leaf of the first statement',
         'single-line calls: `position[1] - name.start_pos[1]` is modelled as a natural number (cut)',
         'CPython call binding enters the theorems as `pyBind`; stream pybind compares it with real calls',
+        'histories: the value of the time cache is abstract (`fresh` = the callee inferred from the asking Script\'s '
+        'tree); that a freshly inferred callee mirrors the definition is the per-request part (all other streams); '
+        'the two time.time() calls of one wrapper call are one clock value; stream sigcache checks key, hit/miss and '
+        'dictionary against the real functions, stream oracle:history the end-to-end answers',
     ]
 
 
